@@ -266,6 +266,24 @@ fn check_depth_boundary(g: &mut Gen, ctx: &mut Ctx) -> CaseResult {
         };
         ensure!(got_t.is_ok() == via_t.is_ok(), "{}: from_tagged_slice {} but parse-then-convert {} for a value nested {} deep ({})", t.name, if got_t.is_ok() { "accepts" } else { "rejects" }, if via_t.is_ok() { "accepts" } else { "rejects" }, d, hex_trunc(&b, 24));
     }
+    // encode direction on what was accepted: to_vec == serialise(to_cbor_value), also at the limit
+    if got.is_ok() {
+        if let (Some(enc), Some(val)) = ((t.recode)(&b), (t.to_value)(&b)) {
+            let via = val.map_err(|e| format!("{:?}", e)).and_then(|v| serialise(&v).map_err(|_| "serialise failed".to_string()));
+            match (enc, via) {
+                (Ok(x), Ok(y)) => ensure!(x == y, "{}: to_vec differs from serialising to_cbor_value for a value nested {} deep", t.name, d),
+                (Err(_), Err(_)) => {}
+                (x, y) => fail!("{}: for an accepted value nested {} deep to_vec {} but converting and serialising {}", t.name, d, if x.is_ok() { "succeeds" } else { "fails" }, if y.is_ok() { "succeeds" } else { "fails" }),
+            }
+        }
+    }
+    if let (Some(rt), Some(dec_tagged)) = (t.recode_tagged, t.dec_tagged) {
+        if dec_tagged(&b).is_ok() {
+            if let Some(r) = rt(&b) {
+                ensure!(r.is_ok(), "{}: a value accepted through the tagged entry point (nested {} deep) fails to encode tagged: {:?}", t.name, d, r.err());
+            }
+        }
+    }
     Ok(())
 }
 
